@@ -51,7 +51,7 @@ Definition after_join (s : rst) (k : nat) : nat := if r_cancel s then 1 + pfull 
 
 Definition rankP (s : rst) : nat :=
   match r_wp s with
-  | RWIdle _ => pfull + cc s
+  | RWIdle _ | RWEnd => pfull + cc s
   | RWTicket k => 9 + after_join s k + cc s
   | RWWait k _ => 2 + after_join s k + cc s
   | RWTimedOut k _ => 3 + pfull + cc s
@@ -194,7 +194,7 @@ Definition pfair_cycle (k seen n : nat) : list (nat * Periodic.rev) :=
   [(0, RLdPending k); (0, RSpawn 5); (5, RLdShut false); (2, RRec (S n)); (5, RCollect (S n)); (5, RLdCancel false);
    (5, RExpBegin (S n)); (5, RExpEnd true); (5, RSetValue); (0, RFutReady); (0, RJoin 5); (0, RLdCancel false); (0, RLdNotified seen)].
 Definition pfair_cont : list (nat * Periodic.rev) :=
-  pfair_cycle 1 0 1 ++ [(0, RCasNotified 0 1 0 true); (1, RLdNotified 1); (0, RCasNotified 0 1 1 false)] ++ pfair_cycle 1 1 2.
+  pfair_cycle 1 0 1 ++ [(0, RCasNotified 0 1 0 true); (1, RLdNotified 1); (0, RCasNotified 0 1 1 false); (0, RLdShut false)] ++ pfair_cycle 1 1 2.
 
 Example pfair_demo :
   exists s s', rrun rinit pfair_prefix = Some s /\ 1 <= r_pending s /\ ~ pgoal 1 s /\
